@@ -76,6 +76,9 @@ func check(p ssh.VerifC31Params) func(any) (string, string) {
 		if p.Prefill > 0 {
 			cw[99] = p.Prefill
 		}
+		if p.LateWriter > 0 {
+			cw[98] = p.LateWriter
+		}
 		if e := orderOK(r.GotByServer, cw); e != "" {
 			return "application packet lost, duplicated or reordered across a re-key", "client->server: " + e
 		}
@@ -121,6 +124,11 @@ func run(c *vf.Ctx) {
 		{"both request, 1 writer each", ssh.VerifC31Params{ClientWriters: 1, ServerWriters: 1, PerWriter: 2, PacketLen: 8, ClientRequest: true, ServerRequest: true}, 1},
 		{"threshold 256B, 1 client writer 4x100B", ssh.VerifC31Params{ClientWriters: 1, ServerWriters: 1, PerWriter: 4, PacketLen: 100, Threshold: 256}, b},
 		{"pending queue overflow (66 prefill) + writer", ssh.VerifC31Params{ClientWriters: 1, ServerWriters: 0, PerWriter: 2, PacketLen: 8, ClientRequest: true, Prefill: 66}, 1},
+		// the flushed queue pushes the peer over its byte threshold, so the peer starts the
+		// next key exchange back-to-back while the overflowed writer is being woken
+		{"pending queue overflow + threshold 256B (back-to-back re-key)", ssh.VerifC31Params{ClientWriters: 0, ServerWriters: 0, PerWriter: 0, PacketLen: 8, ClientRequest: true, Prefill: 67, Threshold: 256}, 1},
+		{"queue exactly full + late writer + threshold 256B (writer woken into the next re-key)", ssh.VerifC31Params{PacketLen: 8, ClientRequest: true, Prefill: 64, LateWriter: 3, Threshold: 256}, 1},
+		{"queue exactly full + late writer, server requests next re-key", ssh.VerifC31Params{PacketLen: 8, ClientRequest: true, ServerRequest: true, Prefill: 64, LateWriter: 2}, 1},
 	}
 	if c.Thorough {
 		scs = append(scs,
